@@ -94,6 +94,49 @@ def reference_calls(prop, b, idx, salt, profile_kw):
     return calls, h
 
 
+def reference_calls_log(prop, b, idx, salt, profile_kw, classes=("stat", "lstat", "read")):
+    """calls of qmail-send taken from the shim's log file (classes that are logged but not gated)"""
+    from . import shim
+    h, res = run_one(prop, b, idx, salt, profile_kw, [])
+    calls = []
+    gen1_end = None
+    for e in shim.read_log(h.sim.logfile):
+        if e.get("g") == "qmail-send" and e.get("r") == "send" and "n2" in e and e.get("c") in classes:
+            if e["c"] == "read" and not (e.get("path") or "").startswith("queue/"):
+                continue
+            calls.append((e["g"], e["n2"], e["c"], e.get("path") or ""))
+    # plan indices are per process: only the first incarnation of the daemon can be addressed
+    seen = set()
+    out = []
+    for c in calls:
+        if c[1] in seen:
+            break
+        seen.add(c[1])
+        out.append(c)
+    return out, h
+
+
+def _richness(prop, bdir, variant, idx, salt, profile_kw):
+    res = core.Result()
+    b = build.Build(variant, bdir)
+    try:
+        calls, h = reference_calls(prop, b, idx, salt, profile_kw)
+        ncmd = sum(1 for e in h.sim.events if e["kind"] == "cmd")
+        res.counters["rich"] = {str(idx): len(calls) + 40 * len(h.ledger.bounce_recs) + 5 * ncmd}
+    except Exception as e:
+        res.counters["rich"] = {str(idx): 0}
+    return res
+
+
+def pick_scenarios(prop, b, salt, profile_kw, k, cands=range(24)):
+    """the k richest scenarios (mutating calls, delivery commands, bounces) among the first seeded ones:
+    a sweep over a history in which nothing happens would be vacuous"""
+    r = core.pmap(_richness, [(prop, b.dir, b.variant, i, salt, profile_kw) for i in cands])
+    rich = r.counters.get("rich", {})
+    order = sorted(rich, key=lambda i: (-rich[i], int(i)))
+    return [int(i) for i in order[:k] if rich[i] > 60]
+
+
 def sweep_worker(prop, bdir, variant, idx, salt, profile_kw, oracle_names, plans):
     res = core.Result()
     b = build.Build(variant, bdir)
@@ -142,7 +185,8 @@ def crash_plans(calls, every=1):
     return out
 
 
-FAULTS = {"open": ["fail=EIO", "fail=EMFILE"], "write": ["fail=ENOSPC", "short=1"], "fsync": ["fail=EIO"],
+FAULTS = {"stat": ["fail=EIO"], "lstat": ["fail=EIO"], "read": ["fail=EIO"], "openr": ["fail=EMFILE"],
+          "open": ["fail=EIO", "fail=EMFILE"], "write": ["fail=ENOSPC", "short=1"], "fsync": ["fail=EIO"],
           "unlink": ["fail=EIO"], "link": ["fail=EIO"], "utime": ["fail=EIO"], "close": ["fail=EIO"]}
 
 
